@@ -243,6 +243,72 @@ func runC03(c *Ctx) {
 	}
 
 	runC03Ladder(c)
+	runC03Detectors(c)
+}
+
+// runC03Detectors: every pattern detector of the evaluator (a function of package combination
+// that takes the cards or the rank groups and returns a bool) looks at ALL of its input: each of
+// its loops is a full range over the collection (or a neighbour walk i = 1 .. len-1 over all
+// adjacent pairs), left early only by returning. A detector that stops one card short
+// classifies four-card patterns as five-card ones.
+func runC03Detectors(c *Ctx) {
+	p := c.P
+	n := 0
+	for _, fn := range p.Funcs {
+		if fn.Pkg == nil || shortPkg(fn.Pkg.Pkg.Path()) != "combination" || fn.Parent() != nil {
+			continue
+		}
+		sig := fn.Signature
+		if sig.Results().Len() != 1 || !isBoolType(sig.Results().At(0).Type()) || sig.Params().Len() != 1 {
+			continue
+		}
+		if _, isSlice := sig.Params().At(0).Type().Underlying().(*types.Slice); !isSlice {
+			continue
+		}
+		loops := findLoops(fn)
+		if len(loops) == 0 {
+			continue
+		}
+		n++
+		c.touch(fnKey(fn))
+		var bad []string
+		for _, l := range loops {
+			ri := analyseRange(l)
+			full := ri.Kind == "slice" && ri.Full
+			if !full {
+				// neighbour walk: i := 1; i < len(coll); i++ comparing coll[i] with coll[i-1]
+				ci := analyseCounting(l)
+				if ci.OK && ci.Step == 1 && ci.Op == "<" {
+					if c1, ok := constInt(ci.Init); ok && c1 == 1 {
+						if call, ok := ci.Bound.(*ssa.Call); ok {
+							if b, ok := call.Call.Value.(*ssa.Builtin); ok && b.Name() == "len" && call.Call.Args[0] == ssa.Value(fn.Params[0]) {
+								full = true
+							}
+						}
+					}
+				}
+			}
+			if !full {
+				bad = append(bad, fmt.Sprintf("the loop at %s does not cover its whole input", p.InstrPos(l.Header.Instrs[len(l.Header.Instrs)-1])))
+			}
+			for _, ex := range l.Exits {
+				if _, isRet := ex.Instrs[len(ex.Instrs)-1].(*ssa.Return); !isRet && len(l.Exits) > 1 {
+					// an exit that is not a return and not the normal loop end: a break
+					normal := false
+					for _, pr := range ex.Preds {
+						if pr == l.Header {
+							normal = true
+						}
+					}
+					if !normal {
+						bad = append(bad, "the loop is left early by a break")
+					}
+				}
+			}
+		}
+		c.check(len(bad) == 0, "detectors-scan-all", fnKey(fn), p.FnPos(fn), "looks at its whole input", "a pattern detector ignores part of the hand", uniq(bad, 2)...)
+	}
+	c.floor("detectors-scan-all", "pattern detectors", n, 7)
 }
 
 func swap(in []string, a, b string) []string {
